@@ -611,13 +611,15 @@ class C01(Check):
                 raise AnalysisError(f"{qn}: call of {callee} not found")
             arg = {k.arg: k.value for k in calls[0].keywords}.get(kwname)
             sc = Scope(fn)
-            loops = sc.enclosing(calls[0], ast.For)
+            # the iteration the call sits in: a for loop or a comprehension generator (target, iterable)
+            loops = [(l.target, l.iter) for l in sc.enclosing(calls[0], ast.For)]
+            loops += [(g.target, g.iter) for c_ in sc.enclosing(calls[0], (ast.DictComp, ast.ListComp, ast.GeneratorExp, ast.SetComp)) for g in c_.generators]
             ok = False
             why = f"`{kwname}={norm(arg)}`"
             if isinstance(arg, ast.Call) and isinstance(arg.func, ast.Attribute) and arg.func.attr == "to_dict" and isinstance(arg.func.value, ast.Name) and loops:
                 row = arg.func.value.id
-                lp = loops[0]
-                if norm(lp.iter) == f"{frame}.iterrows()" and isinstance(lp.target, ast.Tuple) and norm(lp.target.elts[1]) == row:
+                lt, li = loops[0]
+                if norm(li) == f"{frame}.iterrows()" and isinstance(lt, ast.Tuple) and norm(lt.elts[1]) == row:
                     ok = True
                     why = f"row Series of {frame}.iterrows() converted with to_dict(): keyed by the frame's column labels"
             elif isinstance(arg, ast.Call) and norm(arg.func) == "dict" and arg.args and isinstance(arg.args[0], ast.Call) and norm(arg.args[0].func) == "zip":
